@@ -340,6 +340,31 @@ func roleFindingsUncached(p *Program) ([]roleFinding, int) {
 							}
 						}
 					case *ast.IfStmt:
+						// (N) if x == nil { y = make(…) }: the variable that is initialised is the one found nil
+						if be, isB := x.Cond.(*ast.BinaryExpr); isB && be.Op.String() == "==" && x.Init == nil && x.Else == nil && len(x.Body.List) == 1 {
+							ci, isCI := be.X.(*ast.Ident)
+							ni, isNI := be.Y.(*ast.Ident)
+							if as, isA := x.Body.List[0].(*ast.AssignStmt); isA && isCI && isNI && ni.Name == "nil" && len(as.Lhs) == 1 && len(as.Rhs) == 1 && as.Tok.String() == "=" {
+								li, isLI := as.Lhs[0].(*ast.Ident)
+								fresh := false
+								switch rv := as.Rhs[0].(type) {
+								case *ast.CallExpr:
+									if fi, isFI := rv.Fun.(*ast.Ident); isFI && fi.Name == "make" {
+										fresh = true
+									}
+								case *ast.CompositeLit:
+									fresh = true
+								}
+								if isLI && fresh && !sameVar(ci, li) {
+									co, lo := info.ObjectOf(ci), info.ObjectOf(li)
+									if co != nil && lo != nil && types.Identical(co.Type(), lo.Type()) {
+										pos := p.Fset.Position(x.Pos())
+										ord["nilinit"]++
+										out = append(out, roleFinding{rel + ":" + itoaN(pos.Line), fd.Name.Name + "→nil-init#" + itoaN(ord["nilinit"]-1), ci.Name + " is found nil but " + li.Name + " is what gets a fresh value: the nil one stays nil (a write into it panics) and the other loses its content", rel})
+									}
+								}
+							}
+						}
 						// (P) if v, err := f(); COND — COND tests what the init statement has just produced
 						if as, isA := x.Init.(*ast.AssignStmt); isA && len(as.Rhs) == 1 {
 							if _, isCall := as.Rhs[0].(*ast.CallExpr); isCall {
@@ -1292,5 +1317,118 @@ func materialisedRevisionAppended(r *Report, p *Program, rule string) {
 	}
 	if n == 0 {
 		r.Check(rule, FK(f), p.Pos(f.Pos()), false, "", "no append to parentRevisions inside a loop")
+	}
+}
+
+// rmwAddressedByObjectNamespace (C04/C02/C10): every read-modify-write helper call on a ResourceClient
+// (AtomicUpdate, AtomicStatusUpdate, AddFinalizer, RemoveFinalizer) is made on client.Namespace(x.GetNamespace())
+// where x is the object handed to it. A client "already scoped" somewhere else (to the parent's namespace, which
+// is empty for a cluster-scoped parent) reads another object, or none — and NotFound is taken for "gone".
+func rmwAddressedByObjectNamespace(r *Report, p *Program, rule string) {
+	r.Rule(rule, "AtomicUpdate / AtomicStatusUpdate / AddFinalizer / RemoveFinalizer(obj, …) are called on rc.Namespace(obj.GetNamespace()) for that same obj")
+	r.Floor(rule, 4)
+	n := 0
+	for _, f := range p.Scanned {
+		k := FK(f)
+		if strings.Contains(k, "zzmcvetcontrols") || strings.Contains(k, "/pkg/client/generated") || strings.HasSuffix(engine.Short(k), "ResourceClient.AddFinalizer") || strings.HasSuffix(engine.Short(k), "ResourceClient.RemoveFinalizer") {
+			continue
+		}
+		for _, cs := range callsTo(f, true, "clientset.ResourceClient.AtomicUpdate", "clientset.ResourceClient.AtomicStatusUpdate", "clientset.ResourceClient.AddFinalizer", "clientset.ResourceClient.RemoveFinalizer") {
+			args := cs.Common().Args
+			if len(args) < 2 {
+				continue
+			}
+			n++
+			recv, obj := args[0], engine.Unwrap(args[1])
+			ok, why := false, "the client is "+E(recv)+": not scoped to the namespace of the object that is read and written"
+			if ns := engine.DependsOnCall(recv, engine.HasSuffix("clientset.ResourceClient.Namespace"), nil); ns != nil && len(ns.Common().Args) == 2 {
+				if g, isC := engine.Unwrap(ns.Common().Args[1]).(*ssa.Call); isC && strings.HasSuffix(engine.CallKey(g.Common()), "Unstructured.GetNamespace") && len(g.Common().Args) == 1 {
+					if x := engine.Unwrap(g.Common().Args[0]); engine.SameValue(x, obj) || E(x) == E(obj) {
+						ok = true
+					} else {
+						why = "the client is scoped to the namespace of " + E(x) + ", but the object read and written is " + E(obj)
+					}
+				}
+			}
+			r.Check(rule, sf("%s→%s#%d", Short(k), methodOf(cs.Key), n), p.InstrPos(cs.Instr), ok, "client.Namespace(obj.GetNamespace())", why)
+		}
+	}
+}
+
+// fanOutLoopsDoNotReturn (C14): findPotentialParents / findRelatedParents walk all candidate parents; one
+// candidate that cannot be judged (unusable selector, failing rule) is skipped — a return inside the loop throws
+// away the matches already collected and the candidates not yet looked at.
+func fanOutLoopsDoNotReturn(r *Report, p *Program, rule string) {
+	r.Rule(rule, "the loops over the listed candidate parents in findPotentialParents and findRelatedParents contain no return")
+	r.Floor(rule, 2)
+	for _, key := range []string{"controller/composite.parentController.findPotentialParents", "controller/common/customize.Manager.findRelatedParents"} {
+		f := fn(r, p, rule, key)
+		if f == nil {
+			continue
+		}
+		ok, why := true, ""
+		var loops []*engine.RangeLoop
+		for _, l := range engine.RangeLoops(f) {
+			// the loop over the candidates themselves: what is ranged over is what a lister returned
+			if engine.DependsOnCall(l.X, engine.HasSuffix(".List"), nil) != nil {
+				loops = append(loops, l)
+			}
+		}
+		for _, l := range loops {
+			for _, b := range l.BodyBlocks() {
+				if ret, isR := b.Instrs[len(b.Instrs)-1].(*ssa.Return); isR {
+					ok, why = false, "a return inside the loop over the candidates (at "+p.InstrPos(ret)+"): one candidate that cannot be judged makes the event wake nobody"
+				}
+			}
+		}
+		if len(loops) == 0 {
+			ok, why = false, "no loop over the candidates"
+		}
+		r.Check(rule, FK(f), p.Pos(f.Pos()), ok, "every candidate is looked at", why)
+	}
+}
+
+// channelFieldsSetOnlyAtStart (C18/C20): a stop / done channel that a goroutine selects on is stored into its
+// struct field only by the function that starts the goroutine (Start / start / a constructor). Clearing or
+// replacing it in stop() races with the goroutine re-reading the field: it then waits on nil and never stops.
+func channelFieldsSetOnlyAtStart(r *Report, p *Program, rule string) {
+	r.Rule(rule, "struct fields of type chan struct{} are assigned only in Start/start/constructors")
+	r.Floor(rule, 6)
+	n := 0
+	for _, f := range p.Scanned {
+		k := engine.Short(FK(f))
+		if strings.Contains(k, "zzmcvetcontrols") || strings.Contains(k, "client/generated") {
+			continue
+		}
+		root := f
+		for root.Parent() != nil {
+			root = root.Parent()
+		}
+		name := root.Name()
+		for _, b := range f.Blocks {
+			for _, in := range b.Instrs {
+				st, isS := in.(*ssa.Store)
+				if !isS {
+					continue
+				}
+				fa, isFA := st.Addr.(*ssa.FieldAddr)
+				if !isFA {
+					continue
+				}
+				ch, isCh := fa.Type().(*types.Pointer).Elem().Underlying().(*types.Chan)
+				if !isCh {
+					continue
+				}
+				if _, isStruct := ch.Elem().Underlying().(*types.Struct); !isStruct {
+					continue
+				}
+				if _, isAlloc := fa.X.(*ssa.Alloc); isAlloc {
+					continue // composite literal under construction
+				}
+				n++
+				ok := name == "Start" || name == "start" || strings.HasPrefix(strings.ToLower(name), "new")
+				r.Check(rule, sf("%s→store(%s)#%d", k, fieldName(fa), n), p.InstrPos(in), ok, "set where the goroutine is started", "the channel field "+fieldName(fa)+" is assigned in "+name+": a goroutine that selects on the field sees another (or a nil) channel than the one that is closed")
+			}
+		}
 	}
 }
